@@ -235,6 +235,13 @@ class Walker(ExprMixin):
             self.env[target.id] = v
             srcn0 = strip_cast(src) if src is not None else None
             self.flag_tests.pop(target.id, None)
+            if isinstance(srcn0, ast.Attribute) and srcn0.attr in ("type", "value", "data") and isinstance(srcn0.value, ast.Name):
+                # token_type = tok.type ... if token_type == "INT_LIT": the test narrows the token like the direct spelling
+                def stores(nm: str) -> int:
+                    return sum(1 for n in ast.walk(self.node) if isinstance(n, ast.Name) and n.id == nm and isinstance(n.ctx, ast.Store))
+
+                if stores(srcn0.value.id) <= 1 and stores(target.id) == 1:
+                    self.flag_tests["#attr:" + target.id] = srcn0
             if isinstance(srcn0, ast.Call) and dotted(srcn0.func) == "len" and len(srcn0.args) == 1:
                 subjects = {n.id for n in ast.walk(srcn0) if isinstance(n, ast.Name)} - {"len"}
                 stored = {n.id for n in ast.walk(self.node) if isinstance(n, ast.Name) and isinstance(n.ctx, ast.Store)}
@@ -494,6 +501,8 @@ class Walker(ExprMixin):
                 self._want_keys = False
             if isinstance(left, ast.Name) and ("#len:" + left.id) in self.flag_tests:
                 left = self.flag_tests["#len:" + left.id]  # n = len(x.children); if n == 1: ...
+            if isinstance(left, ast.Name) and ("#attr:" + left.id) in self.flag_tests:
+                left = self.flag_tests["#attr:" + left.id]  # t = tok.type; if t == "INT_LIT": ...
             # x is None / x is not None
             if isinstance(op, (ast.Is, ast.IsNot)) and isinstance(right, ast.Constant) and right.value is None:
                 want_none = isinstance(op, ast.Is) == pol
@@ -611,6 +620,8 @@ class Walker(ExprMixin):
             except Exception:  # noqa: BLE001
                 idx = None
             tokv = sub_.value
+            if isinstance(tokv, ast.Name) and ("#attr:" + tokv.id) in self.flag_tests:
+                tokv = self.flag_tests["#attr:" + tokv.id]  # text = tok.value; text[-1].lower() == "u"
             if idx == -1 and isinstance(tokv, ast.Attribute) and tokv.attr == "value" and dotted(tokv.value):
                 tkey = "$" + dotted(tokv.value) + ".type"
                 tv = env.get(tkey)
@@ -631,6 +642,30 @@ class Walker(ExprMixin):
                         if isinstance(op, ast.NotEq):
                             val = not val
                         return val == pol
+            return True
+        # len(X.children) in (k1, k2, ...)
+        if isinstance(left, ast.Call) and dotted(left.func) == "len" and len(left.args) == 1 and isinstance(op, (ast.In, ast.NotIn)) \
+                and isinstance(right, (ast.Tuple, ast.List, ast.Set)) and right.elts and all(isinstance(e, ast.Constant) and isinstance(e.value, int) for e in right.elts):
+            arg = strip_cast(left.args[0])
+            if isinstance(arg, ast.Attribute) and arg.attr == "children":
+                base = self.ev_quiet(arg.value)
+                if base.rules is not None:
+                    ks = {e.value for e in right.elts}
+                    counts: Set[int] = set()
+                    for r in base.rules:
+                        counts |= g.counts(r)
+                    if base.empty:
+                        counts = {0}
+                    ckey = (arg.value.id + "#count") if isinstance(arg.value, ast.Name) else None
+                    if ckey and ckey in env and env[ckey].strs is not None:
+                        counts &= {int(x) for x in env[ckey].strs}
+                    positive = isinstance(op, ast.In) == pol
+                    unbounded = any(g.unbounded(r) for r in base.rules) and not base.empty and not (ckey and ckey in env)
+                    keep = {n for n in counts if (n in ks) == positive}
+                    feasible = bool(keep) or (unbounded and not positive)
+                    if feasible and ckey and not unbounded:
+                        env[ckey] = Val(strs=FS(str(n) for n in keep))
+                    return feasible
             return True
         # len(X.children) <op> k
         if isinstance(left, ast.Call) and dotted(left.func) == "len" and len(left.args) == 1 and isinstance(right, ast.Constant) and isinstance(right.value, int):
